@@ -24,7 +24,7 @@ THEOREMS = ['loop_lastIs', 'loop_trace_prefix', 'reported_is_last_answer', 'gex_
             'rating_antitone', 'severity_thresholds']
 # functions of the code whose Lean definitions are regenerated from the source on every run (harness/translate_logic.py); `GenLogic.<name>_eq_model`
 # (lean/SshAudit/Props/GenLogic*.lean) ties each to the hand-written model function the theorems above are about
-GEN_LOGIC = ['gex_size_class', 'gex_early_exit', 'gex_followup_updated']
+GEN_LOGIC = ['gex_size_class', 'gex_early_exit', 'gex_followup_updated', 'gex_probe', 'gex_report_guard', 'gex_rate']
 TECHNIQUE = 'Lean 4 theorems (loop invariant by induction for arbitrary server state machines; decide +kernel over the full 512x3x2 family; threshold lemmas) + trace-level correspondence with GEXTest.run over scripted servers'
 LEVEL_TEXT = ('The probe loop is modelled over an arbitrary server state machine and the safety claims (no invented size, none on garbage, probe bound) are proved by induction for every server; '
               'the statement "smallest modulus across the fixed probe sequence / OpenSSH follow-up" is kernel-evaluated over the property\'s entire family; thresholds are lemmas about the entry edit. '
